@@ -194,6 +194,54 @@ def run(run, tier, replay=None):
         run.violation("correspondence", {**meta_info[i], "note": "Project.build no longer has the file effects of Fs.build_steps (proved convergent in FsThm.v)"})
     hostile(run, tier)
     hooks(run, tier)
+    preexisting(run, tier)
+
+
+def preexisting(run, tier):
+    """an output directory that already EXISTS - whatever it holds (nothing, only dot files / a .git directory, only sub-directories,
+    a single visible file) - is left byte-for-byte untouched without --overwrite, and an error is reported"""
+    D = docs()
+    shapes = {"empty": {}, "dotfiles": {".git/config": b"[core]\n", ".github/workflows/ci.yml": b"on: push\n", ".gitignore": b"user-ignore\n"},
+              "dirs-only": None, "one-file": {"NOTES.txt": b"mine\n"}, "hidden-file": {".env": b"SECRET=1\n"}}
+    terms, info = [], []
+    for meta in (["none", "poetry"] if tier == "quick" else ["none", "poetry", "pdm", "setup"]):
+        models, tags, pkg = doc_record(D[0], meta)
+        for shape, files in shapes.items():
+            root = Path(tempfile.mkdtemp(prefix="opc_p_"))
+            try:
+                out = root / "out"
+                out.mkdir()
+                if files is None:
+                    (out / "a" / "b").mkdir(parents=True)
+                else:
+                    for rel, b in files.items():
+                        (out / rel).parent.mkdir(parents=True, exist_ok=True)
+                        (out / rel).write_bytes(b)
+                before = snapshot(out)
+                dirs_before = sorted(str(p.relative_to(out)) for p in out.rglob("*") if p.is_dir())
+                g = impl.Gen(D[0], meta=meta, root=root, overwrite=False)
+                after = snapshot(out)
+                dirs_after = sorted(str(p.relative_to(out)) for p in out.rglob("*") if p.is_dir())
+                case = {"meta": meta, "preexisting_output_directory": shape, "overwrite": False}
+                run.note_case(case, nontrivial=True, kind="preexisting-dir")
+                if g.exc is not None:
+                    run.violation("oracle", {**case, "note": "generate raised", "error": repr(g.exc)})
+                elif after != before or dirs_after != dirs_before or not g.errors:
+                    run.violation("oracle", {**case, "doc": D[0], "note": "an existing output directory was written to without --overwrite, or no error was reported",
+                                             "changed": sorted(set(after) ^ set(before))[:10] + [k for k in after if k in before and after[k] != before[k]][:5], "errors": len(g.errors)})
+                # model: Fs.build with dir_exists = true and overwrite = false touches nothing and reports the error
+                obs_err = "true" if g.errors else "false"
+                obs_same = "true" if (after == before and dirs_after == dirs_before) else "false"
+                terms.append(f"match build {FL[meta]} {cstr(pkg)} false true {cdoc(models, tags)} 1 [] with (t, err) => Bool.eqb err {obs_err} && Bool.eqb (match t with [] => true | _ => false end) {obs_same} end")
+                info.append(case)
+            finally:
+                shutil.rmtree(root, ignore_errors=True)
+    bad = run_cases(HDR, terms, shard=60) if terms else []
+    run.corr["cases"] += len(terms)
+    run.corr["mismatches"] += len(bad)
+    run.corr["what"] += "; existing output directory without --overwrite == Fs.build (error, nothing touched)"
+    for i in bad[:3]:
+        run.violation("correspondence", {**info[i], "note": "Project.build on an existing directory without --overwrite no longer behaves like Fs.build"})
 
 
 def hooks(run, tier):
